@@ -1,11 +1,15 @@
 import Rie.Oracle.Core
 import Rie.Oracle.Gate
+import Rie.Oracle.Env
+import Rie.Oracle.Sanitize
+import Rie.Oracle.DirectInvoke
+import Rie.Oracle.Supervisor
 
 open Rie.Oracle
 
 def models : List (String × Model) :=
   [("gate", gateModel), ("initflow", initFlowModel), ("invokeflow", invokeFlowModel),
-   ("thread", threadModel)]
+   ("thread", threadModel)] ++ envModels ++ sanitizeModels ++ directInvokeModels ++ supervisorModels
 
 def main (args : List String) : IO UInt32 := do
   match args with
